@@ -660,6 +660,11 @@ def it_reference(X, tm, past, mode):
                 rows = R.transfer_rows(X, i, j, tau, tm, past, mode)
                 if any(R.is_constant(r) for r in rows):
                     continue
+                # samples - conditions - intercept: with fewer than 3
+                # residual degrees of freedom the partial correlation is
+                # +-1 or 0/0 by construction, not an estimate
+                if rows.shape[1] - (rows.shape[0] - 2) - 1 < 3:
+                    continue
                 Z = rows[2:].T
                 if R.design_condition(Z) > 1e6:
                     continue
@@ -744,10 +749,11 @@ def oracle_it(case, rec):
 
 @st.composite
 def it_cases(draw):
-    x = draw(data_arrays(t_min=8, t_max=60, n_max=5))
+    x = draw(data_arrays(t_min=12, t_max=60, n_max=5))
     T = len(x)
     past = draw(st.integers(1, 2))
-    tm = draw(st.integers(0, max(0, min(4, T - past - 6))))
+    # leave >= 3 residual degrees of freedom: T - L >= 2*past + 4
+    tm = draw(st.integers(0, max(0, min(4, T - 3 * past - 5))))
     return {"x": x, "tau_max": tm, "past": past,
             "cond_mode": draw(st.sampled_from(["ity", "mit"]))}
 
@@ -1398,6 +1404,10 @@ def oracle_relations(case, rec):
         # on tied samples a reordering legitimately changes the counts
         rec.label("knn_ties_no_permutation_check")
         return
+    if fam == "mi_knn":
+        # X = Y on the diagonal: every distance comparison is a tie that
+        # only the (per call) noise decides - not a function of the data
+        regular = regular & ~np.eye(N, dtype=bool)[:, :, None]
     t3 = _run(rec, fam + "_permuted_call", X[:, p], fam, tm, par, seed,
               allowed)
     if t3 is not None:
@@ -1420,13 +1430,16 @@ def relation_cases(draw):
     fam = draw(st.sampled_from(["cc", "cc", "mi_binning", "mi_gauss",
                                 "it_gauss", "mi_knn"]))
     if fam == "mi_knn":
+        # no exactly collinear columns: there the neighbour counts are
+        # decided by the tie-breaking noise alone
         x = draw(data_arrays(t_min=10, t_max=30, n_max=3,
-                             kinds=("fine", "walk"), degenerate=False))
+                             kinds=("fine", "walk"), degenerate=False,
+                             affine=False))
     else:
-        x = draw(data_arrays(t_min=8, t_max=50, n_max=5))
+        x = draw(data_arrays(t_min=12, t_max=50, n_max=5))
     T, N = len(x), len(x[0])
     past = draw(st.integers(1, 2))
-    tm = draw(st.integers(0, max(0, min(4, T - past - 6))))
+    tm = draw(st.integers(0, max(0, min(4, T - 3 * past - 5))))
     kmax = min(T // 2, T - tm - 2)
     par = {"bins": draw(st.integers(2, 6)),
            "knn": draw(st.integers(1, max(1, min(5, kmax)))),
